@@ -72,6 +72,10 @@ func (r *Reader) readBlock() error {
 	}
 	switch m := methodEncoding(r.header[hMethod]); m {
 	case encodedLZ4: // == encodedLZ4HC, as decompression is similar for both
+		if dataSize == 0 && rawSize != 0 {
+			// Nothing to decompress into, lz4 panics on empty destination.
+			return errors.Errorf("unexpected %d bytes of compressed data for empty block", rawSize)
+		}
 		n, err := lz4.UncompressBlock(r.raw[headerSize:], r.data)
 		if err != nil {
 			return errors.Wrap(err, "uncompress")
